@@ -414,7 +414,41 @@ func genCliFaultEnum(seed uint64, prop string) *Scenario {
 
 func genCliFault(seed uint64, prop string) *Scenario {
 	r := rand.New(rand.NewPCG(seed, 0x636c6d))
-	return cliFaultScenario(seed, "clifault", r.IntN(2), r.IntN(12), r.IntN(5), []int{0, 1, 3, 6, 12, 30}[r.IntN(6)], r.IntN(2), r)
+	sc := cliFaultScenario(seed, "clifault", r.IntN(2), r.IntN(12), r.IntN(5), []int{0, 1, 3, 6, 12, 30}[r.IntN(6)], r.IntN(2), r)
+	n := len(sc.Steps)
+	if r.IntN(2) == 0 || n < 2 || sc.Steps[n-1].T != "close" || sc.Steps[n-2].T != "await" {
+		return sc
+	}
+	// Repeated lifecycles of the one client object: further rounds of Reset, (fault armed or not), Connect,
+	// exchange - whatever is created per Connect must be fresh every time, not only the first.
+	sc.Steps = sc.Steps[:n-1]
+	g := newGen(seed, 0x636c6e, &sc.Cfg)
+	for c := 0; c < 1+r.IntN(3); c++ {
+		sc.Steps = append(sc.Steps, Step{T: "reset"})
+		if r.IntN(5) == 0 {
+			sc.Steps = append(sc.Steps, Step{T: "reset"}) // twice in a row
+		}
+		faulty := r.IntN(2) == 0
+		if faulty {
+			sc.Steps = append(sc.Steps, Step{T: "fault", Note: []string{"send", "recv"}[r.IntN(2)], A: r.IntN(6), B: r.IntN(5)})
+		}
+		sc.Steps = append(sc.Steps, Step{T: "reconnect"})
+		for i := 0; i < 1+r.IntN(4); i++ {
+			st := g.batchStep(0, cliOps(g, 1+g.pick(3)))
+			st.T = "q"
+			sc.Steps = append(sc.Steps, st)
+		}
+		if r.IntN(3) == 0 {
+			sc.Steps = append(sc.Steps, Step{T: "burst", A: 1 + r.IntN(6)})
+		}
+		aw := Step{T: "await", A: 30}
+		if faulty {
+			aw.B = 1
+		}
+		sc.Steps = append(sc.Steps, aw)
+	}
+	sc.Steps = append(sc.Steps, Step{T: "close"})
+	return sc
 }
 
 // ---------------------------------------------------------------------------
@@ -435,6 +469,7 @@ type cliRun struct {
 	pollDone   bool
 	polls      int
 	inQ        map[uint64]bool // operations whose Q call has not returned yet (not "handed over" yet)
+	faultBase  int64           // fault counters when the current round's fault was armed
 	dupOps     int             // operations in the request with a repeated id (q-dup)
 	epoch      int             // bumped around Reset: a Status() snapshot taken across it describes no single session
 }
@@ -600,6 +635,7 @@ func runCli(e *env) {
 				err = status.Error(c, "injected "+c.String())
 			}
 			cr.faultWhat = fmt.Sprintf("%s-side fault at index %d (%s)", st.Note, st.A, c)
+			cr.faultBase = e.sim.Faults["send-error"] + e.sim.Faults["recv-error"]
 			if st.Note == "send" {
 				if err == nil {
 					err = io.EOF
@@ -770,6 +806,14 @@ func (cr *cliRun) await(st *Step) {
 	defer cancel()
 	var err error
 	done := false
+	// operations handed over (Q returned) before AwaitConverged was called: these - not the ones a concurrent
+	// burst queues while it polls - must all be answered if it reports convergence
+	var handedBefore []uint64
+	for _, id := range cr.order {
+		if !cr.inQ[id] {
+			handedBefore = append(handedBefore, id)
+		}
+	}
 	simrt.Go("cli-await", func() {
 		err = cr.c.AwaitConverged(ctx)
 		done = true
@@ -784,7 +828,7 @@ func (cr *cliRun) await(st *Step) {
 	case fault:
 		// C14: the error is recorded, AwaitConverged reports it, Done is signalled
 		cr.faulted = true
-		fired := e.sim.Faults["send-error"]+e.sim.Faults["recv-error"] > 0
+		fired := e.sim.Faults["send-error"]+e.sim.Faults["recv-error"] > cr.faultBase
 		if !fired {
 			e.probe("client: injected fault position was never reached")
 			if err != nil && err != context.DeadlineExceeded {
@@ -808,7 +852,7 @@ func (cr *cliRun) await(st *Step) {
 					}
 				}
 			}
-			for _, id := range cr.order {
+			for _, id := range handedBefore {
 				if !answered[id] {
 					e.report("C14", "converged-despite-fault", "AwaitConverged reported convergence after the stream failed with operations unanswered", fmt.Sprintf("%s; op %d has no terminal result", cr.faultWhat, id), false)
 					return
